@@ -2,7 +2,9 @@
    Property theorems only (Run/ExecTheorems.v), pinned by Check, followed by Print Assumptions. *)
 From Coq Require Import ZArith String.
 From ApolloVerif Require Import Base.Chars Ast.Ast Schema.Model Run.Json Run.Coerce Run.TypedDoc Run.Prog
-  Run.Execute Run.ExecTop Run.RefExecute Run.ExecKnown Run.ExecProofs Run.ExecPaths Run.ExecTheorems.
+  Run.Execute Run.ExecTop Run.RefExecute Run.ExecKnown Run.ExecProofs Run.ExecPaths Run.ExecTheorems
+  Run.ExecRefDefs Run.ExecRefInv Run.ExecRefFuel Run.ExecRefCollect Run.ExecRefTyping Run.ExecRefProp Run.ExecRefSim
+  Run.ExecRefFuelRef Run.ExecRefNull Run.ExecRefTheorems.
 Local Open Scope string_scope.
 Local Open Scope list_scope.
 
@@ -14,11 +16,8 @@ Local Open Scope list_scope.
    selection's field type (`field.ty()`) — or the field's type on the object type — is nullable;
    and data = null comes with at least one field error (one direction of "data is null exactly when a null
    propagates to the root").
-   NOT proved here (checked by the tie on every generated case, outside the known class): equality with the
-   reference executor of Run/RefExecute.v (C26_eq_reference), the converse direction of data_null_iff (an error at a
-   position all of whose enclosing positions are non-null makes the data null), and that the fuel ex_fuel_for
-   always suffices (the statement is about requests whose
-   outcome is a response; the model runner reports out-of-fuel as a machinery error and never did). *)
+   Equality with the reference executor of Run/RefExecute.v, both directions of data_null_iff and the sufficiency of
+   the fuel ex_fuel_for are proved further down (C26_eq_reference, C26_data_null_iff, C26_fuel_enough). *)
 Theorem C26_nonnull_partial : forall s doc values w d vars root impls r log,
   execute_prepare s doc values = EpReady d vars root impls ->
   execute_request s doc values w = (EoResponse r, log) ->
@@ -114,3 +113,134 @@ Check C26_nested_variable_refuted :
     (EoResponse {| er_data := Some [(xs "any", JNull)];
                    er_errors := [{| ge_class := EcBug; ge_path := [PsKey (xs "any")] |}] |}, []).
 Print Assumptions C26_nested_variable_refuted.
+
+(* ================================================================ second part: the reference executor
+
+   Hypotheses used below (Run/ExecRefDefs.v), all on the typed document d = td_build s doc and the schema:
+     rd_acyclic d = true          every chain of fragment spreads ends within (number of fragments + 1) steps, i.e. the
+                                  fragments reachable in the document form no cycle (decidable; validation's
+                                  NoFragmentCycles).  Without it the code itself does not terminate.
+     sch_exec_wf s = true         type names are unique in the type map, no object / interface type declares a field
+                                  named __typename / __schema / __type, the built-in scalar String is present
+                                  (decidable; true of every schema the real builder builds)
+     known_covariant s d = false  outside the first known class of Run/ExecKnown.v (the second class, nested
+                                  variables, concerns argument coercion, which model and reference share)
+     rd_mergeable s d             in every grouped field set execution can form (any object type, any depth) the
+                                  fields of a response key have one field name: the "same field name" half of
+                                  validation's FieldsInSetCanMerge.  A proposition; rd_alias_consistent d = true (a
+                                  response key names one field throughout the document) is a decidable sufficient
+                                  condition (C26_mergeable_of_alias_consistent).  Without it the statement is false of
+                                  the model: for `{ x: a { ... on I { k } } x: b { k } }` the executor completes k with the
+                                  type of B.k on an object of type A.
+   The typed document itself is td_build's (Run/TypedDoc.v: valid documents; C18 is about the real construction). *)
+
+(* the fuel handed to the executor, to collect_fields and to argument coercion always suffices *)
+Theorem C26_fuel_enough : forall s doc values w d vars root impls,
+  execute_prepare s doc values = EpReady d vars root impls ->
+  rd_acyclic d = true ->
+  fst (execute_request s doc values w) <> EoFuel.
+Proof. exact c26_fuel_enough. Qed.
+Check C26_fuel_enough : forall s doc values w d vars root impls,
+  execute_prepare s doc values = EpReady d vars root impls ->
+  rd_acyclic d = true ->
+  fst (execute_request s doc values w) <> EoFuel.
+Print Assumptions C26_fuel_enough.
+
+(* collect_fields of the model (one pass, pushing into an ordered map of groups) = flatten-then-group-by-response-key
+   of the reference, with @skip/@include, type conditions and the visited-fragments set, for any fuels that suffice *)
+Theorem C26_collect_fields_eq : forall cx otn oimpls fuel1 fuel2 sels v1 groups fields v2,
+  sch_names_unique (ex_schema cx) -> ex_get_object (ex_schema cx) otn = Some oimpls ->
+  ex_collect fuel1 cx otn oimpls sels [] [] = Some (v1, groups) ->
+  rf_flatten fuel2 (ex_schema cx) (ex_frags cx) (ex_vars cx) otn sels [] = Some (fields, v2) ->
+  v2 = v1 /\ to_ref groups = rf_group fields.
+Proof. exact c26_collect_fields_eq. Qed.
+Check C26_collect_fields_eq : forall cx otn oimpls fuel1 fuel2 sels v1 groups fields v2,
+  sch_names_unique (ex_schema cx) -> ex_get_object (ex_schema cx) otn = Some oimpls ->
+  ex_collect fuel1 cx otn oimpls sels [] [] = Some (v1, groups) ->
+  rf_flatten fuel2 (ex_schema cx) (ex_frags cx) (ex_vars cx) otn sels [] = Some (fields, v2) ->
+  v2 = v1 /\ to_ref groups = rf_group fields.
+Print Assumptions C26_collect_fields_eq.
+
+(* complete_leaf_value = the reference's result coercion of scalars and enums *)
+Theorem C26_leaf_completion_eq : forall s n tdef j,
+  sch_get_type s n = Some tdef -> j <> JNull ->
+  match tdef with EScalar _ _ _ _ | EEnum _ _ _ _ _ => True | _ => False end ->
+  ex_leaf n tdef j = if rf_leaf_ok s n j then None else Some EcLeaf.
+Proof. exact leaf_eq. Qed.
+Check C26_leaf_completion_eq : forall s n tdef j,
+  sch_get_type s n = Some tdef -> j <> JNull ->
+  match tdef with EScalar _ _ _ _ | EEnum _ _ _ _ _ => True | _ => False end ->
+  ex_leaf n tdef j = if rf_leaf_ok s n j then None else Some EcLeaf.
+Print Assumptions C26_leaf_completion_eq.
+
+(* the simulation, for ANY fuels on both sides and any world: as long as neither side runs out of fuel,
+   execute_selection_set, execute_field, complete_value and complete_list_value of the model produce the value and
+   (reversed) the new errors that the reference's null propagation computes from its result tree at that position *)
+Theorem C26_simulation : forall s d vars w,
+  sch_names_unique s -> sch_no_meta_fields s -> sch_has_string s -> known_covariant s d = false ->
+  frags_typed s (rd_frags d) ->
+  forall f1, S_selset s d vars w f1 /\ S_field s d vars w f1 /\ S_complete s d vars w f1 /\ S_list s d vars w f1.
+Proof. exact sim_all. Qed.
+Check C26_simulation : forall s d vars w,
+  sch_names_unique s -> sch_no_meta_fields s -> sch_has_string s -> known_covariant s d = false ->
+  frags_typed s (rd_frags d) ->
+  forall f1, S_selset s d vars w f1 /\ S_field s d vars w f1 /\ S_complete s d vars w f1 /\ S_list s d vars w f1.
+Print Assumptions C26_simulation.
+
+(* C26_eq_reference: for any resolver world, the outcome of the executor model — data and the error list (class, path)
+   in order — is the outcome of the reference executor (build the annotated result tree, then propagate nulls to the
+   nearest nullable ancestor), and neither runs out of fuel *)
+Theorem C26_eq_reference : forall s doc values w d vars root impls,
+  execute_prepare s doc values = EpReady d vars root impls ->
+  sch_exec_wf s = true -> known_covariant s d = false -> rd_mergeable s d -> rd_acyclic d = true ->
+  fst (execute_request s doc values w) = ref_execute s doc values w.
+Proof. exact c26_eq_reference. Qed.
+Check C26_eq_reference : forall s doc values w d vars root impls,
+  execute_prepare s doc values = EpReady d vars root impls ->
+  sch_exec_wf s = true -> known_covariant s d = false -> rd_mergeable s d -> rd_acyclic d = true ->
+  fst (execute_request s doc values w) = ref_execute s doc values w.
+Print Assumptions C26_eq_reference.
+
+(* the decidable sufficient condition for rd_mergeable, and the statement with decidable hypotheses only *)
+Theorem C26_mergeable_of_alias_consistent : forall s d,
+  rd_alias_consistent d = true -> rd_acyclic d = true -> rd_mergeable s d.
+Proof. exact alias_consistent_mergeable. Qed.
+Check C26_mergeable_of_alias_consistent : forall s d,
+  rd_alias_consistent d = true -> rd_acyclic d = true -> rd_mergeable s d.
+Print Assumptions C26_mergeable_of_alias_consistent.
+
+Theorem C26_eq_reference_decidable : forall s doc values w d vars root impls,
+  execute_prepare s doc values = EpReady d vars root impls ->
+  sch_exec_wf s = true -> known_covariant s d = false -> rd_alias_consistent d = true -> rd_acyclic d = true ->
+  fst (execute_request s doc values w) = ref_execute s doc values w.
+Proof. exact c26_eq_reference_alias. Qed.
+Check C26_eq_reference_decidable : forall s doc values w d vars root impls,
+  execute_prepare s doc values = EpReady d vars root impls ->
+  sch_exec_wf s = true -> known_covariant s d = false -> rd_alias_consistent d = true -> rd_acyclic d = true ->
+  fst (execute_request s doc values w) = ref_execute s doc values w.
+Print Assumptions C26_eq_reference_decidable.
+
+(* C26_data_null_iff, both directions: the data is null exactly when, in the reference's result tree of the request,
+   some root field propagates a null — rt_propagates: a field error (or failed list) all of whose enclosing
+   positions, up to the root field, are non-null *)
+Theorem C26_data_null_iff : forall s doc values w d vars root impls r log,
+  execute_prepare s doc values = EpReady d vars root impls ->
+  sch_exec_wf s = true -> known_covariant s d = false -> rd_mergeable s d -> rd_acyclic d = true ->
+  execute_request s doc values w = (EoResponse r, log) ->
+  (er_data r = None <-> rt_fields_propagate (ref_root_fields s d vars root w) = true).
+Proof. exact c26_data_null_iff. Qed.
+Check C26_data_null_iff : forall s doc values w d vars root impls r log,
+  execute_prepare s doc values = EpReady d vars root impls ->
+  sch_exec_wf s = true -> known_covariant s d = false -> rd_mergeable s d -> rd_acyclic d = true ->
+  execute_request s doc values w = (EoResponse r, log) ->
+  (er_data r = None <-> rt_fields_propagate (ref_root_fields s d vars root w) = true).
+Print Assumptions C26_data_null_iff.
+
+(* non-vacuity of the hypotheses: they hold of the example request above (whose data is not null) *)
+Example C26_hypotheses_nonvacuous :
+  exists d vars root impls,
+    execute_prepare x_nv_schema x_nv_doc [] = EpReady d vars root impls /\
+    sch_exec_wf x_nv_schema = true /\ known_covariant x_nv_schema d = false /\ rd_alias_consistent d = true /\
+    rd_acyclic d = true /\ rd_mergeable x_nv_schema d /\
+    rt_fields_propagate (ref_root_fields x_nv_schema d vars root x_nv_world) = false.
+Proof. exact c26_hyps_nonvacuous. Qed.
